@@ -103,7 +103,9 @@ func Variants(samIn, refIn io.Reader, refFromFile bool, annoIn io.Reader, annoSu
 
 	go groupSamRecords(samIn, cSH, cSR, cReadDone, cErr)
 
-	_ = <-cSH
+	if _, err := getSamHeader(cSH, cErr); err != nil {
+		return err
+	}
 
 	var wgAlign sync.WaitGroup
 	wgAlign.Add(threads)
